@@ -93,6 +93,7 @@ static void vf_transform(int len, int type, double * d, long br, long sc)
   rebuilding = len > vf_table_n;
   if (rebuilding) {
     VF_ASSERT(g_in_use == 0, "the tables are rebuilt (transform longer than the tables) only while no other transform is using them (C17)");
+    VF_ASSERT(fft_cache_ccrw.writecount > 0 && fft_cache_ccrw.w.held, "a transform that rebuilds the shared tables runs under the WRITE lock: a reader never rebuilds (C17)");
     ++g_writers_in_use;
   }
   ++g_in_use;
